@@ -8,6 +8,7 @@ package patch
 //@   requires wfProg(f.prog)
 //@   assigns group(ast), matchCount, replFail, sitesReplaced, restructured
 //@   at call go/parser.ParseFile assert [C12,C14] the-file-is-parsed-into-the-file-set-the-patch-was-compiled-with: arg0 == f.fset
+//@   at call go/parser.ParseFile assert [C11,C17] targets-are-parsed-with-comments-and-resolved-identifiers: arg3 == const("go/parser.AllErrors") + const("go/parser.ParseComments")
 //@   at call go/format.Node assert [C12,C14] printed-with-the-same-file-set: arg1 == f.fset
 //@   ensures [C06] no-match-returns-input: matchCount == old(matchCount) && replFail == old(replFail) ==> (err == nil ==> out == src)
 //@   ensures [C07] output-parses: err == nil && out != src ==> Parses(string(out))
